@@ -614,6 +614,7 @@ type PermTable struct {
 	Requires map[string]string // method -> minimum level
 	Order    []string
 	Closed   bool // every method of the struct must be listed
+	Wire     bool // wirenames table: field -> JSON key (instead of method -> permission level)
 	File     string
 	Line     int
 }
@@ -632,7 +633,7 @@ var clauseKeywords = map[string]bool{
 	"property": true, "requires": true, "ensures": true, "nopanic": true, "overflow": true,
 	"untrusted": true, "loop": true, "modifies": true, "assume": true, "trusted": true,
 	"fresh": true, "params": true, "results": true, "let": true, "assert": true, "var": true,
-	"dropped": true, "param": true, "end": true, "checks": true, "effect": true, "callpre": true, "noframe": true, "lock": true, "permtable": true, "require": true, "closed": true, "only": true, "havoc": true,
+	"dropped": true, "param": true, "end": true, "checks": true, "effect": true, "callpre": true, "noframe": true, "lock": true, "permtable": true, "wirenames": true, "require": true, "closed": true, "only": true, "havoc": true,
 }
 
 // OnlyCall is one `only` clause.
@@ -992,6 +993,11 @@ func (c *Contracts) parseContractFile(path, pkgPath string) error {
 			cur = nil
 			curLemma = nil
 			curPerm = &PermTable{Pkg: pkgPath, Type: strings.TrimSpace(rest), Requires: map[string]string{}, File: path, Line: l.n}
+			c.Perms = append(c.Perms, curPerm)
+		case "wirenames":
+			cur = nil
+			curLemma = nil
+			curPerm = &PermTable{Pkg: pkgPath, Type: strings.TrimSpace(rest), Requires: map[string]string{}, File: path, Line: l.n, Wire: true}
 			c.Perms = append(c.Perms, curPerm)
 		case "require":
 			fs := strings.Fields(rest)
